@@ -61,6 +61,13 @@ CLAIMED.update({
     'C16': ('observe / edit / observe histories on symbolic files: after each of 17 documented edits (optionally preceded by an '
             'observation that could populate a cache) every observation (iterate, length, merged_track, save, play) equals the '
             'one on a freshly built file; hidden state is checked to be at most the merge cache.', '4/C16'),
+    'C17': ('Load faults with a SYMBOLIC truncation offset, a SYMBOLIC substituted byte at every offset and arbitrary short track '
+            'bodies, save faults at a symbolic message index: on every path of the real loader/writer the default charset is in '
+            'force afterwards (observed through the public API); charset x text menu round trips with the file bytes compared to '
+            'text.encode(charset) via the reference decoder.', '4/C17'),
+    'C19': ('write_syx_file -> read_syx_file on lists of messages of symbolically chosen kinds with symbolic sysex data, binary and '
+            'plain text (hex rendering/parsing abstracted as an inverse pair so every byte value is covered at once), white-space '
+            'layouts, interleaved other messages, corrupt texts, on an in-memory file system double.', '4/C19'),
 })
 
 PENDING = {}     # id -> reason (not claimed)
